@@ -475,6 +475,15 @@ pub fn run(tier: &str) -> i32 {
             });
         }
     });
+    // Sessions at the same time: the replies and the final value of every key must be those of the commands run one
+    // after the other in some order that respects what finished before what (an increment refused because the key holds a
+    // text leaves the text alone; one that was accepted added to the number it met).
+    let cstats = std::sync::Mutex::new(crate::c02::CtlStats::new());
+    let (mixes, per_mix) = if thorough { (1200, 60) } else { (160, 30) };
+    crate::common::sched::install_callback_inner();
+    crate::c02::controlled(&v, seed() ^ 0xc01, mixes, per_mix, true, &cstats, 1);
+    crate::common::sched::clear_callback();
+    let cst = cstats.into_inner().unwrap();
     let s = stats.into_inner().unwrap();
     ev.evaluations = s.histories;
     ev.distinct_nontrivial = s.nontrivial_histories.len() as u64;
@@ -485,6 +494,10 @@ pub fn run(tier: &str) -> i32 {
     ev.set("distinct_histories", json!(s.distinct_histories.len()));
     ev.set("op_state_reply_triples", json!(s.triples.len()));
     ev.set("triples", json!(s.triples.iter().map(|t| format!("{}/{}/{}", t.0, t.1, t.2)).collect::<Vec<_>>()));
+    ev.set("concurrent_sessions_part", json!({"schedules_run": cst.schedules, "distinct_schedules": cst.distinct.len(), "distinct_schedules_with_overlap_on_a_key": cst.distinct_overlapping.len(),
+        "client_operations": cst.ops, "sequential_reexecutions_by_checker": cst.spec_runs, "checker_undecided_keys": cst.undecided, "stuck_runs": cst.stuck,
+        "rule": "2-3 sessions x 1-4 commands (set of a text, set of a number, increment by -1..3, get-safe, remove) on 1-2 keys under the token scheduler (hook points before every Database.map acquisition); per key a real-time-respecting order is searched in which the same code, one command at a time, gives the same replies and final value",
+        "samples": cst.samples}));
     ev.set("known_findings_seen", json!(v.known_seen()));
     ev.violations = v.violation_count();
     ev.assumptions = vec![
@@ -499,6 +512,10 @@ pub fn run(tier: &str) -> i32 {
         println!("INCONCLUSIVE property=C01 reason=coverage floor not met ({} triples, {} non-trivial histories)", s.triples.len(), s.nontrivial_histories.len());
         return 2;
     }
-    println!("C01 {}: {} histories, {} commands, {} (op,state,reply) triples, {} non-trivial histories, {} violations", tier, s.histories, s.commands, s.triples.len(), s.nontrivial_histories.len(), v.violation_count());
+    if code == 0 && (cst.distinct_overlapping.len() < 300 || cst.stuck > cst.schedules / 20) {
+        println!("INCONCLUSIVE property=C01 reason=coverage floor of the concurrent part not met ({} overlapping schedules, {} stuck)", cst.distinct_overlapping.len(), cst.stuck);
+        return 2;
+    }
+    println!("C01 {}: {} histories, {} commands, {} (op,state,reply) triples, {} non-trivial histories; {} schedules of concurrent sessions ({} distinct with overlap on a key); {} violations", tier, s.histories, s.commands, s.triples.len(), s.nontrivial_histories.len(), cst.schedules, cst.distinct_overlapping.len(), v.violation_count());
     code
 }
